@@ -57,6 +57,8 @@ def handle (st : St) (toks : List String) : Option (St × String) :=
      | _ => none)
   | ["ackrelease"] => some (applyStim st (fun s => stim s .ackRelease))
   | ["bclose"] => some (applyStim st (fun s => stim s .backendClose))
+  | ["stall", c] => do let c ← c.toNat?; some (applyStim st (fun s => stim s (.stall c)))
+  | ["unstall", c] => do let c ← c.toNat?; some (applyStim st (fun s => stim s (.unstall c)))
   | ["toktimeout", c] => do let c ← c.toNat?; some (applyStim st (fun s => stim s (.tokenTimeout c)))
   | "obs" :: "sent" :: c :: rest => do
     let c ← c.toNat?; let p ← parsePacket rest
